@@ -427,6 +427,10 @@ LinkAlphabet ==        \* C12: .link / leading '. =' with expressions whose depe
     DotSet(Bin("+", Dot, Num(0))), DotSet(Bin("+", S, Num(64))),
     Const("k", Bin("-", E, S)), Lab("s"), Lab("e"), I0("nop"), W(<<S, E>>), Blkb(Num(3)), By(<<Num(1)>>) }
 
+LinkCoreAlphabet ==    \* C12: the core of LinkAlphabet, small enough for all programs of 4 statements (labels and code on both sides of the directive)
+  { Link(Bin("+", K, Bin("-", E, S))), Link(Bin("-", Bin("<<", E, Num(1)), Bin("<<", S, Num(1)))), Link(Bin("-", Bin("-", Bin("+", K, Bin("*", Num(2), E)), S), S)),
+    Link(E), DotSet(Bin("+", K, Bin("-", E, S))), DotSet(Bin("+", Dot, Num(3))), Lab("s"), Lab("e"), I0("nop"), Blkb(Num(3)), W(<<S, E>>) }
+
 StructAlphabet ==      \* C16: .repeat bodies (own '.', impure operators, hoisted index expressions, local labels), insert_file, .end, .once
   { Rep(0, << I0("nop") >>), Rep(1, << W(<<Dot>>) >>), Rep(3, << W(<< Bin("/", Dot, Num(2)) >>) >>), Rep(2, << W(<< Bin("%", Dot, Num(4)), Bin("<<", Dot, Num(1)), Bin(">>", Dot, Num(1)) >>) >>),
     Rep(2, << I1("movx", Bin("+", Num(2), Num(2))) >>), Rep(2, << I1("movx", Bin("+", Sym("c"), Num(2))), I1("movr", Dot) >>),
